@@ -466,6 +466,8 @@ class SymArr:
 
     def __setitem__(self, key, value):
         self._log_write("setitem")
+        if self.kind == "O":
+            return self._set_objects(key, value)
         if isinstance(key, SymArr) and key.kind == "b":
             self._set_masked(key, value)
             return
@@ -494,6 +496,43 @@ class SymArr:
         if isinstance(value, SymArr) and value.kind == "f" and self.kind == "i":
             pass  # item assignment casts (truncation), numpy allows it
         self._assign(region, value_at)
+
+    def _set_objects(self, key, value):
+        """Object arrays: only whole-array assignment (through identity / ravel views)."""
+        from .prelude_index import GenericElem
+
+        full = key is Ellipsis or (isinstance(key, slice) and key == slice(None)) or (isinstance(key, tuple) and all(isinstance(k, slice) and k == slice(None) for k in key))
+        if not full:
+            raise Unsupported("partial assignment into an object array")
+        c = ctx()
+        st = self.storage
+        inv = self.inv
+        if isinstance(value, list) and len(value) == 1 and isinstance(value[0], GenericElem):
+            g = value[0]
+            if self.ndim != 1:
+                raise Unsupported("generic sequence assigned to a non 1-D object view")
+            if not _same_dim(g.count, self.shape[0]):
+                c.oblige("setitem.sequence_length[%s]" % c.fresh_name("sq"), g.count == self.shape[0], kind="domain")
+            st.fn = lambda sidx: g.at(inv(sidx)[1][0])
+            return
+        if isinstance(value, list):
+            n = len(value)
+            if self.ndim != 1:
+                raise Unsupported("list assigned to a non 1-D object view")
+            if not _same_dim(n, self.shape[0]):
+                c.oblige("setitem.sequence_length[%s]" % c.fresh_name("sq"), self.shape[0] == n, kind="domain")
+            vals = list(value)
+
+            def fn(sidx):
+                i = inv(sidx)[1][0]
+                iv = concrete_value(i) if is_sym(i) else i
+                if iv is None:
+                    raise Unsupported("symbolic index into a concrete object list")
+                return vals[int(iv)]
+
+            st.fn = fn
+            return
+        raise Unsupported("object array assignment from %r" % type(value))
 
     def _set_masked(self, mask, value):
         mfn = mask.snapshot()
